@@ -1,0 +1,7 @@
+//go:build !verif
+
+package genql
+
+// verifPoint marks a place where the verification harness may observe or
+// perturb scheduling. Without the `verif` build tag it is an empty function.
+func verifPoint(site string) {}
